@@ -665,6 +665,8 @@ def distribution(cases, impl):
             d["conc"] = d.get("conc", 0) + 1
             d["conc_overlap"] = d.get("conc_overlap", 0) + (c.split()[1] == "overlap")
             d["conc_ring_out_of_order"] = d.get("conc_ring_out_of_order", 0) + ("ringconsec=bad" in (o or ""))
+            d["conc_role_transitions"] = d.get("conc_role_transitions", 0) + sum(x.startswith("A:") for x in c.split())
+            d["conc_mutation_handlers"] = d.get("conc_mutation_handlers", 0) + sum(x.startswith("G:") for x in c.split())
             continue
         if c.startswith("rng"):
             d["rng"] += 1
@@ -674,6 +676,8 @@ def distribution(cases, impl):
             d["rng_panic"] += p.count("panic")
             continue
         d["hist"] += 1
+        d.setdefault("hist_modes", {})
+        d["hist_modes"][c.split()[1]] = d["hist_modes"].get(c.split()[1], 0) + 1
         toks = c.split()[4:]
         nops = 0
         for t in toks:
